@@ -562,10 +562,17 @@ def gen_paced(r, n):
                          (v.rsplit("/", 1)[0] in dirs or v.rsplit("/", 1)[0] in newd)]
                 if again and r.random() < 0.4:
                     name = r.choice(again)
-                if r.random() < 0.6:
+                c = r.random()
+                if c < 0.5:
                     ops.append(("mkdir", name)); newd.append(name)
-                else:
+                elif c < 0.8:
                     ops.append(("create", name)); files.add(name)
+                    if r.random() < 0.4:
+                        ops.append(("write", name))           # populate: the new file is written at once
+                elif files and c < 0.9:
+                    ops.append(("write", r.choice(sorted(files))))
+                else:
+                    ops.append(("chmod", r.choice(sorted(files | (dirs - {"W"}) | set(newd)) or [name])))
             dirs.update(newd)
             if ops:
                 bursts.append(ops)
